@@ -49,9 +49,10 @@ class Obj(Val):
 class Mat(Val):
     """n-d array of values stored as nested python lists; shape tuple"""
 
-    def __init__(self, data, shape):
+    def __init__(self, data, shape, origin=None):
         self.data = data
         self.shape = tuple(shape)
+        self.origin = origin        # 'literal': np.array(<nested list>) - the element type is that of the listed values
 
 
 class Closure(Val):
@@ -210,6 +211,7 @@ class Evaluator(object):
         self.ext_summaries = {}             # external callable name -> function(ev, args, kwargs, node)
         self.raise_conds = []               # (function qualname, condition under which an `if ...: raise` fires incl. enclosing ifs, node)
         self._path = []                     # conditions of the enclosing if-branches
+        self.call_paths = []                # for every entry of self.calls: the branch conditions under which the call is made
         self._path_base = []                # per function frame: length of _path at entry
         self.fold_const_types = False       # type(<numeric constant>) folds to int / float
         self.rat_type_is_float = False      # type(<symbolic number>) folds to float (used where inputs are documented floats)
@@ -277,6 +279,53 @@ class Evaluator(object):
         return Ref(g)
 
     # -------------------------------------------------------------------------------------------- functions
+    def _round_call(self, a, kwargs, node):
+        """round(x[, d]) / numpy.round(x[, d]).  Every call is recorded in self.roundings.  At a CONFIRMED rounding site (the frozen table of the
+        places where today's tree rounds, with the digits it uses there) the rounding is the identity of the exact model - the rules of the
+        property judge its digits.  Anywhere else it is the function it is: rnd(x, d), a generator of its own, so a value that passes through a
+        new or coarsened rounding is no longer the reference formula."""
+        digits = None
+        if len(a) > 1:
+            digits = _const_int(a[1])
+        elif 'ndigits' in kwargs:
+            digits = _const_int(kwargs['ndigits'])
+        fn = self._stack[-1].qualname if self._stack else '<module>'
+        to_int = len(a) == 1 and not kwargs
+        table = CONFIRMED_ROUNDINGS.get(fn)
+        if self._stack and not getattr(self._stack[-1].module, 'name', 'geodepy').startswith('geodepy'):
+            # a reference formula of the checker (oracle module): its roundings are those of the reference
+            table = 'any'
+        if to_int:
+            confirmed = False
+        elif table == 'any':
+            confirmed = True
+        elif table is not None and digits is not None and digits >= min(table):
+            confirmed = True
+        else:
+            confirmed = False
+
+        def one(x):
+            if not isinstance(x, Rat):
+                return x
+            self.roundings.append((fn, digits, x, getattr(node, 'lineno', 0)))
+            f = x.as_fraction()
+            if f is not None and digits is not None:
+                q = Fraction(10) ** digits
+                return C(Fraction(round(f * q), 1) / q)
+            if to_int:
+                # round to the nearest integer: a different function from truncation
+                if f is not None:
+                    return C(round(f))
+                return alg.opaque('nearest', (x,))
+            if confirmed or not ROUNDING_MODEL['on']:
+                return x
+            if digits is None:
+                return alg.opaque('rnd?', (x,))
+            return alg.opaque('rnd', (x, C(digits)))
+        if isinstance(a[0], Mat):
+            return Mat(_mat_map(a[0].data, one), a[0].shape)
+        return one(a[0])
+
     def call_function(self, func, args, node=None):
         """args: {param name: value}; returns the (guarded) return value"""
         if len(self._stack) > 40:
@@ -511,7 +560,15 @@ class Evaluator(object):
             return Outcome(env)
         if isinstance(st, ast.AugAssign):
             cur = self.eval(_as_load(st.target), env, func)
-            v = self.binop(st.op, cur, self.eval(st.value, env, func), st)
+            rhs_ = self.eval(st.value, env, func)
+            if isinstance(cur, Mat) and isinstance(st.target, ast.Name) and input_typed(cur) and not integer_closed(rhs_) \
+                    and not isinstance(st.op, (ast.MatMult,)):
+                # numpy updates the array in place, in the array's own dtype: an array built from the caller's numbers is an integer array
+                # when they are integers - adding a float to it raises (same-kind casting), and an element store truncates
+                INPLACE_EVENTS.append((func, st, 'aug', cur, rhs_))
+                if len(INPLACE_EVENTS) > 5000:
+                    del INPLACE_EVENTS[:2500]
+            v = self.binop(st.op, cur, rhs_, st)
             self.assign(st.target, v, env, func)
             return Outcome(env)
         if isinstance(st, ast.Expr):
@@ -1209,6 +1266,7 @@ class Evaluator(object):
             if p.name not in full and p.default is not None:
                 full[p.name] = self.eval_in_module(f.module, p.default)
         self.calls.append((caller, f.qualname, full, node))
+        self.call_paths.append(tuple(self._path))
         if f.qualname in self.summaries:
             r = self.summaries[f.qualname](self, f, full, node)
             if r is not NotImplemented:
@@ -1231,6 +1289,7 @@ class Evaluator(object):
         caller = self._stack[-1].qualname if self._stack else '<module>'
         full = dict(bound)
         self.calls.append((caller, init.qualname, full, node))
+        self.call_paths.append(tuple(self._path))
         if (cls.name + '.__init__') in self.summaries:
             r = self.summaries[cls.name + '.__init__'](self, init, full, node)
             if r is not NotImplemented:
@@ -1258,6 +1317,8 @@ class Evaluator(object):
                 if len(MATH_CALLS) > 20000:
                     del MATH_CALLS[:10000]
             return alg.define(res)
+        if mod == 'numpy' and short in ('round', 'around', 'round_') and a and isinstance(a[0], (Rat, Mat)):
+            return self._round_call(a, dict(('ndigits' if k == 'decimals' else k, v) for k, v in kwargs.items()), node)
         if mod in ('math', 'numpy') and num and short in ('atan2', 'arctan2') and len(a) == 2:
             return alg.atan2(a[0], a[1])
         if mod in ('math', 'numpy') and num and short in ('pow', 'power') and len(a) == 2:
@@ -1294,24 +1355,8 @@ class Evaluator(object):
                     return a[2]
             if short == 'abs' and num and len(a) == 1:
                 return alg.fabs(a[0])
-            if short == 'round' and a and isinstance(a[0], Rat):
-                digits = None
-                if len(a) > 1:
-                    digits = _const_int(a[1])
-                elif 'ndigits' in kwargs:
-                    digits = _const_int(kwargs['ndigits'])
-                fn = self._stack[-1].qualname if self._stack else '<module>'
-                self.roundings.append((fn, digits, a[0], getattr(node, 'lineno', 0)))
-                f = a[0].as_fraction()
-                if f is not None and digits is not None:
-                    q = Fraction(10) ** digits
-                    return C(Fraction(round(f * q), 1) / q)
-                if len(a) == 1 and not kwargs:
-                    # round to the nearest integer: a different function from truncation
-                    if f is not None:
-                        return C(round(f))
-                    return alg.opaque('nearest', (a[0],))
-                return a[0]
+            if short == 'round' and a and isinstance(a[0], (Rat, Mat)):
+                return self._round_call(a, kwargs, node)
             if short == 'int' and len(a) == 1:
                 if isinstance(a[0], Rat):
                     sa_ = _single_atom(a[0])
@@ -1482,7 +1527,10 @@ class Evaluator(object):
     # numpy ------------------------------------------------------------------------------------------
     def numpy_call(self, short, a, kwargs, node):
         if short in ('array', 'asarray', 'matrix') and a:
-            return self.to_mat(a[0], node)
+            m_ = self.to_mat(a[0], node)
+            if isinstance(m_, Mat) and ('dtype' in kwargs or len(a) > 1) and m_ is not a[0]:
+                m_.origin = None        # an explicit element type
+            return m_
         if short in ('zeros', 'ones') and a:
             shp = a[0]
             dims = None
@@ -1568,7 +1616,7 @@ class Evaluator(object):
             if shp is None:
                 self.diag('shape', node, 'ragged array literal')
                 return self.unknown('ragged array', node)
-            return Mat(data, shp)
+            return Mat(data, shp, 'literal')
         return alg.opaque('array', (argkey(v),))
 
     def mat_index(self, m, idx, node):
@@ -1639,6 +1687,10 @@ class Evaluator(object):
 
     def mat_store(self, m, idx, v, node):
         idx = idx if isinstance(idx, list) else [idx]
+        if input_typed(m) and isinstance(v, (Rat, Mat)) and not integer_closed(v):
+            INPLACE_EVENTS.append((self._stack[-1] if self._stack else None, node, 'store', m, v))
+            if len(INPLACE_EVENTS) > 5000:
+                del INPLACE_EVENTS[:2500]
         if any(isinstance(i, SliceV) for i in idx):
             rng = self._slice_ranges(m, idx, node)
             if rng is None:
@@ -1806,6 +1858,49 @@ class _ModuleScope(object):
 
 COND_NAMES = {'lt', 'le', 'gt', 'ge', 'eq', 'ne', 'and', 'or', 'not', 'in', 'notin', 'truthy', 'isinstance'}
 
+INPLACE_EVENTS = []  # (function, statement, kind, array, value): in-place updates of arrays whose dtype follows the caller's numbers
+
+
+def integer_closed(v):
+    """v stays an integer whenever the caller's numbers are integers: a polynomial with integer coefficients in plain symbols"""
+    if isinstance(v, Mat):
+        ok = [True]
+
+        def look(x):
+            if not integer_closed(x):
+                ok[0] = False
+            return x
+        _mat_map(v.data, look)
+        return ok[0]
+    if not isinstance(v, Rat):
+        return False
+    if not v.den.is_const() or v.num.has_exp():
+        return False
+    dc = v.den.const_value()
+    for mono, c in v.num.t.items():
+        q = c / dc
+        if not q.is_real() or q.re.denominator != 1:
+            return False
+        for aid, e in mono[0]:
+            if alg.TABLE.atoms[aid].kind != 'sym' or e < 0:
+                return False
+    return True
+
+
+def input_typed(m):
+    """a Mat whose dtype is decided by the caller's values: every element integer-closed, at least one of them not a constant"""
+    if not isinstance(m, Mat) or m.origin != 'literal' or not integer_closed(m):
+        return False
+    some = [False]
+
+    def look(x):
+        if isinstance(x, Rat) and not x.is_const():
+            some[0] = True
+        return x
+    _mat_map(m.data, look)
+    return some[0]
+
+
 MATH_CALLS = []     # (function, name, call node, argument form, result form) of sqrt / acos / asin calls met by any evaluator
 
 MATH1 = {
@@ -1816,6 +1911,23 @@ MATH1 = {
     'arcsinh': alg.asinh, 'fabs': alg.fabs, 'abs': alg.fabs, 'absolute': alg.fabs,
     'floor': lambda x: alg.opaque('floor', (x,)), 'ceil': lambda x: alg.opaque('ceil', (x,)),
 }
+
+
+# Rounding sites confirmed by reading today's tree: function -> the digits it rounds to ('any': the digits are the caller's argument).
+# A rounding here with at least the smallest listed digits is part of the documented behaviour (the property rules judge the digits);
+# a rounding anywhere else, or a coarser one, is modelled as the function rnd(x, d).
+CONFIRMED_ROUNDINGS = {
+    'DECAngle.__round__': 'any', 'HPAngle.__round__': 'any', 'GONAngle.__round__': 'any', 'DMSAngle.__round__': 'any', 'DDMAngle.__round__': 'any',
+    'CoordCart.__round__': 'any', 'CoordGeo.__round__': 'any', 'CoordTM.__round__': 'any',
+    'dec2hp': 'any',                                # round(second, places) == 60: the carry test, places is 9 / 8 by magnitude
+    'Transformation.__add__': (8,), 'iers2trans': (8,),
+    'geo2grid': (4, 4, 8), 'grid2geo': (11, 11, 8),
+    'vincdir': (11, 11, 9), 'vincinv': (3, 9, 9),
+    'SubGrid.ntv2_bilinear': (6,), 'SubGrid.ntv2_bicubic': (6,), 'read_ntv2_file': (3, 6),
+    'precise_inst_ht': (5, 5),
+    'transform_mga94_to_mga2020': (4,), 'transform_mga2020_to_mga94': (4,),
+}
+ROUNDING_MODEL = {'on': True}
 
 
 def _single_atom(r):
@@ -1857,7 +1969,7 @@ def _copy_env(env):
     out = {}
     for k, v in env.items():
         if isinstance(v, Mat):
-            out[k] = Mat(_mat_map(v.data, lambda x: x), v.shape)
+            out[k] = Mat(_mat_map(v.data, lambda x: x), v.shape, v.origin)
         elif isinstance(v, Tup) and v.is_list:
             out[k] = Tup(list(v.items), True)
         elif isinstance(v, DictV):
